@@ -36,7 +36,10 @@ RULE = (
     "periodicities, plot multiple of save, sourcewise, number of patients, relative/absolute/nested/default path, overwrite of a "
     "stale folder, progress bar, kwargs or AlgorithmSettings.set_logs form); grid engine enumerates every on/off combination of the "
     "four periodicities x path x sourcewise per model kind; fresh engine takes the reference from a new interpreter. "
-    "Non-trivial = prior activity non-empty AND (fit: the logging variant really printed statistics or wrote a CSV/PDF, checked "
+    "re-use variant (fit, personalize; Hypothesis cases + exhaustive kind x sampler x annealing grid): ONE algorithm object from "
+    "algorithm_factory(AlgorithmSettings(...)) run twice (fit: identical fresh models; personalize: same fitted model and data), both runs "
+    "bit-identical to the model.fit / model.personalize reference. "
+    "Non-trivial = (re-use variant: both runs completed and identical) OR prior activity non-empty AND (fit: the logging variant really printed statistics or wrote a CSV/PDF, checked "
     "in captured stdout / on disk; personalize, simulate: always, they have no output manager); distinct by (call, variant)."
 )
 ASSUMPTIONS = [
@@ -50,6 +53,9 @@ ASSUMPTIONS = [
     "prior activity and the progress bar.",
     "A reference run that raises (e.g. LeaspyConvergenceError on a collapsed variance) must raise the same exception type in every variant; "
     "such cases are counted but are not non-trivial.",
+    "Re-using one algorithm object for several runs is allowed by the API (BaseModel.fit / personalize do `algorithm_factory(settings)` then "
+    "`algorithm.run(self, dataset)`; run() re-seeds itself), so every run of the same object with the same seed on identical inputs must return "
+    "the same result as a fresh call.",
     "Exceptions raised by the prior activities themselves (unseeded runs on auxiliary models) are not judged.",
     "Known defects excluded by construction (reproducers kept, see REPRO_*): D1 joint model with sources + plot_periodicity + "
     "plot_sourcewise=False (TypeError in _set_title_for_parameter); D2 mixture_logistic + plot_patient_periodicity with an "
@@ -64,6 +70,7 @@ REQUIRED_CLASSES = {
     "printed": 25, "wrote-csv": 25, "wrote-convergence-pdf": 10, "wrote-patient-pdf": 10, "default-path": 5, "no-path": 10,
     "prior:consume": 30, "prior:fit": 10, "prior:personalize": 5, "prior:same": 10, "prior:unseeded": 8,
     "refused-invalid": 40, "fresh-process-reference": 4, "nontrivial": 60,
+    "reused-algorithm-object": 30, "reused-algorithm-object:annealing": 10,
 }
 
 LOG_KEYS = ("print_periodicity", "save_periodicity", "plot_periodicity", "plot_patient_periodicity", "plot_sourcewise",
@@ -481,6 +488,77 @@ def judge_variant(col, sub_check, case, variant, ref, out, classes, prior_nonemp
     return bool(prior_nonempty)
 
 
+def call_reused(ctx: Ctx, n_runs=2):
+    """ONE algorithm object built the way BaseModel.fit / personalize build it (AlgorithmSettings -> algorithm_factory), then
+    `algorithm.run(model, dataset)` several times: fit on identical fresh models, personalize on the same fitted model and data."""
+    from leaspy.algo import AlgorithmSettings, algorithm_factory
+    from leaspy.models import BaseModel
+
+    case = ctx.case
+    target = case["target"]
+    akw = dict(case.get("algo_kw") or {})
+    outs = []
+    algo = dataset = None
+    buf0 = io.StringIO()
+    try:
+        with contextlib.redirect_stdout(buf0):
+            settings = AlgorithmSettings("mcmc_saem" if target == "fit" else target, seed=case["seed"], progress_bar=False, **akw)
+            algo = algorithm_factory(settings)
+            dataset = BaseModel._get_dataset(ctx.data())
+    except Exception as e:
+        return [dict(result=None, exc=e, stdout=buf0.getvalue(), disk={}, default_path=False)]
+    for _ in range(n_runs):
+        buf = io.StringIO()
+        res = exc = None
+        try:
+            with contextlib.redirect_stdout(buf):
+                if target == "fit":
+                    m = gen.build_model(ctx.cfg)
+                    if not m.is_initialized:
+                        m.initialize(dataset)
+                    algo.run(m, dataset)
+                    res = canon_fit(m)
+                else:
+                    res = canon_ip(algo.run(ctx.base, dataset))
+        except Exception as e:  # judged by the caller
+            exc = e
+        outs.append(dict(result=res, exc=exc, stdout=buf.getvalue(), disk={}, default_path=False))
+    return outs
+
+
+def judge_reused(col, sub_check, case, variant, ref, outs, classes):
+    """every run of the re-used algorithm object must equal the reference obtained through model.fit / model.personalize"""
+    inp = dict(case, variants=[variant])
+    ann = bool(((case.get("algo_kw") or {}).get("annealing") or {}).get("do_annealing"))
+    classes.add("reused-algorithm-object")
+    if ann:
+        classes.add("reused-algorithm-object:annealing")
+    tag = case["target"] + (":annealing" if ann else "")
+    ok = True
+    for i, out in enumerate(outs):
+        if ref["exc"] is not None:
+            classes.add("ref-raised")
+            ok = False
+            if out["exc"] is None:
+                col.fail(sub_check, f"reused-algorithm-object:reference-raised-run{i + 1}-completed:{tag}", inp, observed="completed",
+                         expected=f"same outcome as the reference: {type(ref['exc']).__name__}")
+            elif type(out["exc"]) is not type(ref["exc"]):
+                col.fail(sub_check, "unexpected-exception:" + exc_bucket(out["exc"]), inp, observed=repr(out["exc"])[:500],
+                         expected=f"same outcome as the reference: {type(ref['exc']).__name__}")
+            continue
+        if out["exc"] is not None:
+            ok = False
+            col.fail(sub_check, f"reused-algorithm-object:run{i + 1}:unexpected-exception:" + exc_bucket(out["exc"]), inp, observed=repr(out["exc"])[:600],
+                     expected="run of a re-used algorithm object completes like the reference call")
+            continue
+        d = first_diff(ref["result"], out["result"])
+        if d is not None:
+            ok = False
+            col.fail(sub_check, f"reused-algorithm-object:run{i + 1}-differs:{tag}", inp, observed=d,
+                     expected="bit-identical to the reference (same seed, same data, fresh identical model) obtained through model.fit / model.personalize")
+    return ok and len(outs) >= 2
+
+
 def body(col: Collector, case, sub_check=None):
     sub_check = sub_check or ("fit" if case["target"] == "fit" else ("simulate" if case["target"] == "simulate" else "perso"))
     for e in case.get("excluded", []):
@@ -508,12 +586,17 @@ def body(col: Collector, case, sub_check=None):
             prior = variant.get("prior") or []
             for op in prior:
                 do_prior(op, ctx, classes)
-            out = call_target(ctx, variant.get("logging"), tag="var")
-            nt = judge_variant(col, sub_check, case, variant, ref, out, classes, bool(prior))
+            if variant.get("reuse"):
+                outs = call_reused(ctx)
+                nt = judge_reused(col, sub_check, case, variant, ref, outs, classes)
+                out = outs[-1]
+            else:
+                out = call_target(ctx, variant.get("logging"), tag="var")
+                nt = judge_variant(col, sub_check, case, variant, ref, out, classes, bool(prior))
             if nt:
                 classes.add("nontrivial")
             col.case(classes=sorted(classes), nontrivial=jhash([case_key(case), variant]) if nt else None,
-                     sample=dict(target=case["target"], model=case["cfg"], seed=case["seed"], algo=akw, prior=prior,
+                     sample=dict(target=case["target"], model=case["cfg"], seed=case["seed"], algo=akw, prior=prior, reuse=bool(variant.get("reuse")),
                                  logging=variant.get("logging"), stdout_chars=len(out["stdout"]), disk=out["disk"],
                                  first_result_key=(sorted(ref["result"])[0] if ref["result"] else None)))
     finally:
@@ -643,6 +726,8 @@ def fit_case(draw, kinds, tier="quick", n_variants=2):
         prior = draw(prior_ops(min_size=0 if (with_log and draw(st.integers(0, 3)) == 0) else 1, max_size=3))
         lg = draw(logging_cfg(n_iter, cfg, heavy=(i == 0 or tier != "quick"), excluded=excluded)) if with_log else None
         variants.append(dict(prior=prior, logging=lg))
+    if draw(st.booleans()):  # the same algorithm object run twice (prior activity optional)
+        variants.append(dict(prior=draw(prior_ops(min_size=0, max_size=1, allow_same=False)), logging=None, reuse=True))
     return dict(target="fit", cfg=cfg, cohort=cohort, seed=draw(seeds()), pre_seed=draw(st.integers(0, 2**31 - 1)), algo_kw=akw,
                 variants=variants, excluded=excluded)
 
@@ -670,6 +755,8 @@ def perso_case(draw, algos, kinds, tier="quick", n_variants=2):
         prior = draw(prior_ops(min_size=1, max_size=3))
         lg = dict(progress_bar=True) if draw(st.integers(0, 3)) == 0 else None
         variants.append(dict(prior=prior, logging=lg))
+    if draw(st.booleans()):  # the same algorithm object run twice on the same fitted model and data
+        variants.append(dict(prior=draw(prior_ops(min_size=0, max_size=1, allow_same=False)), logging=None, reuse=True))
     return dict(target=algo, cfg=cfg, cohort=cohort, seed=draw(seeds()), pre_seed=draw(st.integers(0, 2**31 - 1)), algo_kw=akw,
                 base_seed=draw(st.integers(0, 99)), base_n_iter=draw(st.integers(5, 9)), variants=variants)
 
@@ -1015,6 +1102,54 @@ def shard_known(shard: str = ""):
 
 
 # ------------------------------------------------------------------------------------------------
+def reuse_cases():
+    """exhaustive small grid: fit = kind x population sampler x annealing off/on; personalize = algorithm x kind x annealing off/on"""
+    out = []
+    i = 0
+    for kk in ("logistic", "linear", "joint"):
+        cfg = GRID_CFG[kk]
+        cohort = fixed_cohort("linear" if cfg["kind"] == "linear" else "logistic", cfg["kwargs"]["dimension"], event=cfg["kind"] == "joint")
+        for sampler in SAMPLERS:
+            for ann in (None, dict(do_annealing=True, n_plateau=3, initial_temperature=4.0), dict(do_annealing=True, n_plateau=2, initial_temperature=10)):
+                if ann is not None and ann["n_plateau"] == 2 and sampler != "Gibbs":
+                    continue
+                akw = dict(n_iter=8, sampler_pop=sampler)
+                if ann:
+                    akw["annealing"] = ann
+                out.append(dict(target="fit", cfg=cfg, cohort=cohort, seed=i % 3, pre_seed=2000 + i, algo_kw=akw,
+                                variants=[dict(prior=[] if i % 2 else [["consume", "random", 2]], logging=None, reuse=True)]))
+                i += 1
+        for algo in ("mean_posterior", "mode_posterior", "scipy_minimize"):
+            for ann in ((None, dict(do_annealing=True, n_plateau=3, initial_temperature=4.0)) if algo != "scipy_minimize" else (None,)):
+                if algo == "scipy_minimize":
+                    akw = {}
+                    coh = dict(cohort, rows=[r for r in cohort["rows"] if r[0] in ("s0", "s1", "s2")])
+                    if "events" in coh:
+                        coh["events"] = {k: v for k, v in cohort["events"].items() if k in ("0", "1", "2")}
+                else:
+                    akw = dict(n_iter=12)
+                    coh = cohort
+                    if ann:
+                        akw["annealing"] = ann
+                out.append(dict(target=algo, cfg=cfg, cohort=coh, seed=i % 3, pre_seed=2000 + i, algo_kw=akw, base_seed=3, base_n_iter=6,
+                                variants=[dict(prior=[] if i % 2 else [["consume", "torch", 3]], logging=None, reuse=True)]))
+                i += 1
+    return out
+
+
+def shard_reuse(part: int = 0, n_parts: int = 1, shard: str = ""):
+    env.import_leaspy()
+    col = Collector(PROP, f"reuse-{part}/{n_parts}")
+    n = 0
+    for i, case in enumerate(reuse_cases()):
+        if i % n_parts != part:
+            continue
+        body(col, case, sub_check="reuse")
+        n += 1
+    col.extra["reuse_grid_cases"] = n
+    return col
+
+
 def shards(tier: str, seed: int):
     q = tier == "quick"
     specs = []
@@ -1043,6 +1178,8 @@ def shards(tier: str, seed: int):
                                                n_examples=(n_p if algos != ("scipy_minimize",) else max(5, n_p // 2)), tier=tier, shard=k)))
     for k in range(1 if q else 8):
         specs.append((MOD, "shard_simulate", dict(seed=seed, n_examples=10 if q else 30, tier=tier, shard=k)))
+    for part in range(2):
+        specs.append((MOD, "shard_reuse", dict(part=part, n_parts=2)))
     specs.append((MOD, "shard_invalid", dict(part=0, n_parts=1)))
     specs.append((MOD, "shard_known", dict()))
     if not q:  # thorough: the Hypothesis fit shards are the longest
@@ -1055,7 +1192,7 @@ def replay(sub_check: str, inp):
     env.enter_scratch()
     col = Collector(PROP, "replay")
     case = {k: v for k, v in inp.items() if k != "why"}
-    if sub_check in ("fit", "perso", "simulate", "grid"):
+    if sub_check in ("fit", "perso", "simulate", "grid", "reuse"):
         body(col, case, sub_check=sub_check)
     elif sub_check in ("invalid", "grid-invalid"):
         if "variants" in case:
